@@ -55,6 +55,10 @@ def compute_value(tag, args, kwargs):
         return tag[3]
     if shape == 6:
         return None
+    if shape == 7:  # a value that looks like a legacy task
+        return (len, f"abc{h % 7}")
+    if shape == 8:  # a list holding a key-like value
+        return [tag[3], h % 5]
     return h
 
 
